@@ -58,7 +58,8 @@ Reserved == { <<97,110,100>>, <<111,114>>, <<110,111,116>>, <<116,114,117,101>>,
 
 RenderNum(h, num) ==
   IF num = "Eneg" THEN Decimal(h * 5) \o <<69, 45, 49>>       \* h/2 = (5h) x 10^-1, spelled with an upper-case exponent marker
-  ELSE IF h % 2 = 0 THEN Decimal(h \div 2) \o (CASE num = "float" -> <<46, 48>> [] num = "exp" -> <<101, 48>> [] OTHER -> <<>>)
+  ELSE IF num = "Epos" /\ h % 2 # 0 THEN Decimal(h * 5) \o <<69, 45, 49>>
+  ELSE IF h % 2 = 0 THEN Decimal(h \div 2) \o (CASE num = "float" -> <<46, 48>> [] num = "exp" -> <<101, 48>> [] num = "Epos" -> <<69, 48>> [] OTHER -> <<>>)
   ELSE (IF h < 0 THEN <<45>> ELSE <<>>) \o Digits((IF h < 0 THEN -h ELSE h) \div 2) \o <<46, 53>>
 RenderLit(v, st) ==
   CASE v.t = "null" -> st.nil [] v.t = "bool" -> (IF v.b THEN st.tru ELSE st.fls)
